@@ -393,7 +393,7 @@ def gate_search(repo, prop, tier, seed=1):
     fcntl.flock(lockf, fcntl.LOCK_EX)
     try:
         count = 300000 if tier == "thorough" else 20000
-        res = {"what": "bounded replay of C08 on the real `des` crate: %d seeded random scenarios - 2..4 modules, one gate chain of 1..6 hops (gates g0..gk on random owners, also several on one module), each hop with or without a channel (latency 0.1..2 ms, bitrate 0 / 1 / 8 Mbit/s, jitter 0), hops connected in random order and orientation, one connected pair connected again; the forward walk from g0 must enumerate g0..gk and the backward walk from gk its mirror image; a gate with two peers must refuse a third (separate chain); the owner of g0 sends one message into g0 at 0 and the owner of gk one into gk at 1 s: each must be handled exactly once by the owner of the far end at send time + sum over the hops of (latency + size*8/bitrate) with sender id, receiver id and final gate in the header" % count,
+        res = {"what": "bounded replay of C08 on the real `des` crate: %d seeded random scenarios - 2..4 modules, one gate chain of 1..6 hops (gates g0..gk on random owners, also several on one module), each hop with or without a channel (latency 0.1..2 ms, bitrate 0 / 1 / 8 Mbit/s, jitter 0), hops connected in random order and orientation, one connected pair connected again; the forward walk from g0 must enumerate g0..gk and the backward walk from gk its mirror image; a gate with two peers must refuse a third (separate chain); the owner of g0 sends one message into g0 at 0 and the owner of gk one into gk at 1 s: each must be handled exactly once by the owner of the far end at send time + sum over the hops of (latency + size*8/bitrate) with sender id, receiver id and final gate in the header; every fifth chain has 9..14 hops; in every third scenario both ends send at time 0 (no bounce then): the two directions of a hop have independent channels" % count,
                "bound": "%d random scenarios; seed %d" % (count, seed), "labelled": "bounded", "counts_as_proof": False}
         exe, err = _build_rt(repo, "gate_driver")
         if exe is None:
